@@ -47,7 +47,8 @@ ASSUMPTIONS = [
     "it had already received the victim's complete last flight",
 ]
 MAX_WALL = {"quick": 240, "thorough": 3000}
-FL = [f for f in sorted(FLAVOURS) if f != "any"]
+FL = [f for f in sorted(FLAVOURS) if f != "any" and
+      not FLAVOURS[f].get("c08_only")]
 FULL_QUICK = ("tls12-ecdhe-auth", "tls13", "tls10-dhe", "tls13-hrr")
 
 
